@@ -31,6 +31,7 @@ Cfg_cycle == { Cfg(1, 2, 4, TRUE, << <<S(1), S(2), J(1), J(2), CLR, S(3), S(4), 
                Cfg(0, 2, 3, TRUE, << <<Q(1), S(1), CL, J(1), CLR, S(2), P(1), CL, J(2), CLR>>, <<C(1), C(1)>>, <<SUB, C(2)>> >>) }
 \* no close: the consumer must stay blocked (never returns short)
 Cfg_block == { Cfg(0, 2, 3, FALSE, << <<S(1), S(2), J(1), J(2)>>, <<P(1)>>, <<C(2)>> >>) }
+Cfg_dbg == Cfg_selfclose
 Cfg_quick == Cfg_selfclose \cup Cfg_2p1c \cup Cfg_cycle \cup Cfg_block
 Cfg_sc2 == Cfg_1p2c \cup Cfg_2p2c
 
@@ -40,11 +41,28 @@ Cfg_wm == { Cfg(0, 2, 3, TRUE, << <<S(1), S(2), J(1), CL, J(2)>>, <<P(1)>>, <<C(
 Cfg_wm2 == { Cfg(1, 2, 4, TRUE, << <<S(1), S(2), J(1), J(2)>>, <<Q(2), CL>>, <<C(3)>> >>),
              Cfg(0, 2, 3, TRUE, << <<S(1), S(2), S(3), J(1), J(2), CL, J(3)>>, <<P(1)>>, <<P(1)>>, <<C(2), C(1)>> >>) }
 
-\* spawn / join steps commute with every step of the other threads: taking them first is a sound reduction
-Prio == {t \in Thr : ENABLED SpawnJoin(t)}
-Next == \/ \E t \in Thr : SpawnJoin(t)
-        \/ (\A t \in Thr : ~ENABLED SpawnJoin(t)) /\ \E t \in Thr : Work(t, MOf)
+\* Partial-order reduction by priority.  A LOCAL step touches only the thread's own views / locals and
+\* is invisible to every invariant: spawn / join, the load of the (never written) block table pointer,
+\* acquire / release fences, call (except close, which snapshots the log length) and the returns that
+\* observe nothing.  It commutes with every step of the other threads, so whenever one is enabled
+\* only the local step of the lowest such thread is explored (local steps always advance the pc: no
+\* ignoring problem).
+LocalEn(t) ==
+  \/ /\ pc[t] = "idle" /\ t \in H.started /\ HasOp(t)
+     /\ (Op(t).op = "s" \/ (Op(t).op = "j" /\ Done(Op(t).n)) \/ Op(t).op \notin {"s", "j", "cl"})
+  \/ pc[t] \in {"p_tab", "x_tab", "c_tab", "r_tab1", "r_tab2"}
+  \/ pc[t] = "p_frel" /\ MO.publish_fence_release # "sc"
+  \/ pc[t] = "c_facq" /\ MO.consume_fence_acquire # "sc"
+  \/ pc[t] = "ret" /\ Op(t).op \in {"p", "q", "cl", "sub"}
+LocalSet == {t \in Thr : LocalEn(t)}
+Next == \/ /\ LocalSet # {}
+           /\ LET t == CHOOSE u \in LocalSet : \A w \in LocalSet : u <= w IN Step(t, MOf)
+        \/ /\ LocalSet = {}
+           /\ \E t \in Thr : Work(t, MOf)
         \/ (AllDone /\ UNCHANGED vars)
+\* without the reduction (used to cross-check it on small configurations)
+FullNext == (\E t \in Thr : Step(t, MOf)) \/ (AllDone /\ UNCHANGED vars)
+FullSpec == Init /\ [][FullNext]_vars
 Spec == Init /\ [][Next]_vars
 FairSpec == Spec /\ \A t \in 0..4 : WF_vars(t \in Thr /\ Step(t, MOf))
 
